@@ -46,12 +46,21 @@ def shl_parts(t):
 def shift_mask(t):
     """(source term, shift) if t = (src >> k) & 0xff"""
     t = strip_casts(t)
+    if is_call(t, 'BitAnd::bitand') and len(t[2]) == 2 and const_val(t[2][1]) == 255:
+        t = ('bin', 'BitAnd', t[2][0], t[2][1])       # `&u32 & 0xff` is an operator call
     if t[0] == 'bin' and t[1] == 'BitAnd' and const_val(t[3]) == 255:
         s = strip_casts(t[2])
         if s[0] == 'bin' and s[1] == 'Shr':
             return value_of(s[2]), const_val(s[3])
         if is_call(s, 'Shr::shr') and len(s[2]) == 2:
             return value_of(s[2][0]), const_val(s[2][1])
+        # `x & 0xff` is the byte at shift 0
+        return value_of(s), 0
+    # `x >> 24` of a 32-bit word is its top byte: the mask is redundant
+    if t[0] == 'bin' and t[1] == 'Shr' and const_val(t[3]) == 24:
+        return value_of(t[2]), 24
+    if is_call(t, 'Shr::shr') and len(t[2]) == 2 and const_val(t[2][1]) == 24:
+        return value_of(t[2][0]), 24
     return None
 
 
@@ -95,6 +104,15 @@ def r19_1(ctx):
     ctx.check(okc and okd, R, key + '|format', wp.loc(), 'ColorType::Rgba, BitDepth::Eight', 'the PNG is not declared as 8-bit RGBA')
     # the pixel loop: iterates as_ref(self.buf) in order
     pushes = [(bi, ct) for bi, d, ct in cs if d and d.endswith('Vec::<T, A>::push') and ct[2][1][0] == 'cast' and ct[2][1][2] == 'u8']
+    if not pushes:
+        # the four bytes appended at once: output.extend_from_slice(&[r as u8, g as u8, b as u8, a as u8])
+        for bi, d, ct in cs:
+            if d and d.endswith('extend_from_slice') and len(ct[2]) == 2:
+                arr = strip_all(ct[2][1])
+                if arr[0] == 'mem':
+                    arr = shared.resolve_mem(an, arr)
+                if arr[0] == 'agg' and arr[1] == 'array' and len(arr[4]) == 4 and all(e[1][0] == 'cast' and e[1][2] == 'u8' for e in arr[4]):
+                    pushes = [(bi, ('call', d, (ct[2][0], e[1]), ct[3])) for e in arr[4]]
     if not ctx.check(len(pushes) == 4, R, key + '|four pushes', wp.loc(), 'four byte pushes per pixel', 'expected four byte pushes per pixel, found %d' % len(pushes)):
         return
     for i in range(3):
@@ -107,6 +125,16 @@ def r19_1(ctx):
     for (bi, ct), ch in zip(pushes, order):
         v = strip_casts(ct[2][1])
         defs = an.phi_terms(v) if v[0] in ('phi', 'rec') else [v]
+        if v[0] == 'field' and strip_all(v[1])[0] == 'phi':
+            # a component of `let (r, g, b) = if a > 0 { (..) } else { (r, g, b) }`
+            comps = []
+            for i2 in strip_all(v[1])[2]:
+                d2 = an.defs[i2]
+                t2 = strip_all(an.def_term(d2)) if d2.kind == 'assign' else None
+                if t2 is not None and t2[0] == 'agg' and t2[1] == 'tuple' and v[2] in dict(t2[4]):
+                    comps.append(strip_casts(dict(t2[4])[v[2]]))
+            if len(comps) == len(strip_all(v[1])[2]):
+                defs = comps
         base = None
         scaled = []
         for dterm in defs:
@@ -201,11 +229,14 @@ def r19_2(ctx):
             n = strip_casts(n)
             if n[0] == 'bin' and n[1] == 'Mul' and is_call(n[2], 'size_of') and not is_call(n[3], 'size_of'):
                 n = ('bin', 'Mul', n[3], n[2])      # multiplication commutes
-            okn = (n[0] == 'bin' and n[1] == 'Mul' and is_call(strip_all(n[2]), '::len') and is_call(strip_all(strip_all(n[2])[2][0]), 'as_mut', 'as_ref')
-                   and is_self_field(strip_all(strip_all(n[2])[2][0])[2][0], 'buf') and is_call(n[3], 'size_of') and n[3][1].endswith('size_of'))
+            lenok = (n[0] == 'bin' and n[1] == 'Mul' and is_call(strip_all(n[2]), '::len') and is_call(strip_all(strip_all(n[2])[2][0]), 'as_mut', 'as_ref')
+                     and is_self_field(strip_all(strip_all(n[2])[2][0])[2][0], 'buf'))
+            okn = lenok and is_call(n[3], 'size_of') and n[3][1].endswith('size_of')
             if okn:
                 ci = ctx.an(b).callee_info(n[3][3])
                 okn = ci is not None and ci.get('substs') == ['u32']
+            elif lenok and const_val(n[3]) == 4:
+                okn = True        # the size of a u32 written as a constant
             ok = okp and okn
         ctx.check(ok, R, key, b.loc(), 'byte view = (buf pointer, buf.len() * size_of::<u32>())', '%s does not expose exactly buf\'s memory: %s' % (name, [fmt(b, t) for t in rts]))
     for name, conv in (('get_data', 'AsRef::as_ref'), ('get_data_mut', 'AsMut::as_mut')):
